@@ -1,0 +1,19 @@
+//go:build verif
+// +build verif
+
+package discovery
+
+import (
+	"github.com/prometheus/prometheus/config"
+	"github.com/prometheus/prometheus/model/labels"
+)
+
+// VerifTargetHash exposes targetHash (verification hook, build tag "verif").
+func VerifTargetHash(lbls labels.Labels, url string) uint64 {
+	return targetHash(lbls.Copy(), url)
+}
+
+// VerifPopulateLabels exposes populateLabels (verification hook, build tag "verif").
+func VerifPopulateLabels(lset labels.Labels, cfg *config.ScrapeConfig) (res, orig labels.Labels, err error) {
+	return populateLabels(lset, cfg)
+}
